@@ -10,10 +10,36 @@ import json
 import vlib
 
 
+def scan_lemma_proof(ctx):
+    """TLAPS proof of the scan lemma for lists of any length over any entry set
+    (spec/ScanLemmaProof.tla). It does not depend on /repo; a failure to run the prover is recorded,
+    not turned into a verdict."""
+    import re
+    import shutil
+    import subprocess
+    d = ctx.path("c16", "tlaps", "x")[:-2]
+    shutil.copy(vlib.os.path.join(vlib.SPEC, "ScanLemmaProof.tla"), d)
+    try:
+        r = subprocess.run(["timeout", "900", "tlapm", "--threads", "8", "ScanLemmaProof.tla"], cwd=d,
+                           capture_output=True, text=True)
+    except OSError as e:
+        return {"ran": False, "note": "tlapm not available: %s" % e}
+    out = r.stdout + r.stderr
+    m = re.search(r"All (\d+) obligations proved", out)
+    if m:
+        return {"ran": True, "obligations": int(m.group(1)), "discharged": int(m.group(1)),
+                "checker_cmd": "tlapm --threads 8 spec/ScanLemmaProof.tla"}
+    m = re.search(r"(\d+)/(\d+) obligations failed", out)
+    if m:
+        raise vlib.ToolError("ScanLemmaProof: %s of %s obligations failed" % (m.group(1), m.group(2)))
+    return {"ran": False, "note": "tlapm rc=%d: %s" % (r.returncode, out[-200:])}
+
+
 def run(ctx):
     ctx.build("c16drv")
     scan = ctx.tlc("ScanLemma", "C16_scan.cfg", label="scan lemma, all strict orders on 4 elements, all lists <= 4",
                    workers=8)
+    proof = scan_lemma_proof(ctx)
     gen = ctx.tlc_scenarios("PlatformGen", "C16_gen.cfg", workers=1, label="spelled universe")
     uni = gen["scenarios"]
     if len(uni) < 500:
@@ -115,6 +141,7 @@ def run(ctx):
                            "class pairs for Compatible / Match, over all host x target x runnable-prev triples for "
                            "Better; lists are sampled (the scan lemma covers every list and order)",
         "universe": len(uni), "hosts": hosts, "searches": searches,
+        "scan_lemma_proof": proof,
         "entry_points": ["platform.Parse", "Platform.String", "platform.Compatible", "platform.Match",
                          "platform.NewCompare/Better", "descriptor.DescriptorListSearch", "manifest.GetPlatformDesc"],
     }
